@@ -49,9 +49,9 @@ func main() {
 	flag.Parse()
 	t0 := time.Now()
 	if *timeout == 0 {
-		*timeout = 10
+		*timeout = 30
 		if *tier == "thorough" {
-			*timeout = 60
+			*timeout = 120
 		}
 	}
 	seed := 0
